@@ -80,6 +80,10 @@ def link_write_sites(program):
                         for c in ast.walk(a):
                             if isinstance(c, ast.Constant) and c.value in fields:
                                 sites.append((func, n, c.value, "string-named write via %s" % n.func.attr))
+            elif isinstance(n, ast.Call) and isinstance(n.func, ast.Name) and n.args and is_raw_children(func, n.args[0], fields, aliases) \
+                    and _removal_helper(program, func, n.func.id):
+                # the raw list handed to a package helper that deletes one element (found by identity) in place
+                sites.append((func, n, _owner_of(func, n.args[0], fields), "in-place removal through %s()" % n.func.id))
             elif isinstance(n, ast.Call) and isinstance(n.func, ast.Name) and n.func.id in ("setattr", "delattr"):
                 for a in n.args:
                     if isinstance(a, ast.Constant) and a.value in fields:
@@ -92,6 +96,12 @@ def link_write_sites(program):
             elif isinstance(n, ast.AugAssign) and isinstance(n.target, ast.Name) and n.target.id in aliases:
                 sites.append((func, n, _owner_of(func, n.target, fields), "augmented assignment on the children list"))
     return sites
+
+
+def _removal_helper(program, func, name):
+    from .events import _is_identity_removal_helper
+    r = program.resolve_name(func.module, name)
+    return r is not None and r[0] == "func" and _is_identity_removal_helper(r[1].node)
 
 
 def _owner_of(func, e, fields):
